@@ -38,8 +38,10 @@ def build_history(rnd):
             if asset is None or (asset, nm) not in taken: break
         taken.add((asset, nm))
         do({'k': 'add_node', 'name': nm, 'asset': asset, 'type': t,
-            'viable': rnd.random() < 0.8, 'necessary': rnd.random() < 0.7, 'defOne': (d1 := rnd.random() < 0.5),
-            'suppress': (sp := rnd.random() < 0.3), 'tags': ['suppress'] if sp else [], 'id': None, **({'defense': '1.0' if d1 else '0.5'} if t == 'defense' else {})})
+            'viable': rnd.random() < 0.8, 'necessary': rnd.random() < 0.7,
+            # defense status: exactly 1.0 is "fully enabled"; values next to 1.0 are not
+            'defOne': (d1 := (dv := rnd.choice(['1.0', '1.0', '0.5', '0.0', '0.9999999999', '0.9999999999999999'])) == '1.0'),
+            'suppress': (sp := rnd.random() < 0.3), 'tags': ['suppress'] if sp else [], 'id': None, **({'defense': dv} if t == 'defense' else {})})
     dens = rnd.choice([1.0, 2.0, 3.0]) / n
     for p in range(n):
         for c in range(n):
